@@ -41,6 +41,9 @@ CHECKS = {
  "C19": ("exhaustive enumeration of round trips (31 problems covering every cone variant, empty and extreme data x presolve-reduction active/inactive x settings override x every settings field changed one (thorough: two) at a time) and exhaustive single-site fault enumeration on saved files (every truncation length, every single-byte deletion, every single-byte substitution from a 16-character menu) against the real save_to_file/load_from_file",
          "Each saved file is parsed independently and compared with the user's originals (exactly with equilibration off, 4 ulp otherwise), loaded settings must equal the saved ones field by field (infinite time_limit included), an override must win, and the loaded solver must reach the same verdict/objective; every one of about 6e4 faulted files per run must yield Err or an internally consistent, usable solver - never a panic or hang.",
          "faults are single-site; a faulted file that is still a well-formed problem is accepted if consistent; solves after a fault are only demanded when the settings are unchanged", "DESIGN.md §5 C19"),
+ "C13": ("exhaustive enumeration of all pairs (s,z) from an interior-point lattice (3 directions x boundary distances {1,1e-2,1e-4,1e-8} x magnitudes {1,1e-6,1e6}) for NN(1,3), SOC(2..6) on both sides of the sparse-expansion threshold and PSD(1..3) [thorough adds NN6, SOC9, SOC17, PSD4], driving the real cone objects; every identity of the property checked on all basis vectors and two dense vectors",
+         "For every lattice pair the real update_scaling/mul_W/mul_Winv/mul_Hs/get_Hs/circ_op/lambda_inv_circ_op/affine_ds/combined_ds_shift/ds_from_dz_offset are executed and compared with the identities W z = W^-T s = lambda, W'W z = s, W^-1 W = I, <Wx,y> = <x,W'y>, block == operator (dense, diagonal and D+uu'-vv' sparse form), and the textbook Jordan algebra written independently in the harness.",
+         "relative tolerance 2e-12 amplified by the known conditioning 1/(sqrt(ds dz) sqrt(min(ds,dz))) of the lattice point; PSD on the harness BLAS shims", "DESIGN.md §5 C13"),
  "C16": ("bounded-exhaustive enumeration of all small matrices / triplet sequences / raw CSC encodings / block tuples on the real CscMatrix code, dense reference oracle",
          "Every public CscMatrix operation is executed on every matrix up to 3x3 over {-1,0,1,2} and 4x3 over {-1,0,1} (thorough: {-1,0,1,2}), every triplet sequence up to length 4 (5) on a 3x3 grid, every raw encoding (n<=2, nnz<=3; thorough n<=3, nnz<=4) and every pair/quad of small blocks; results compared exactly with a dense reference and an independent canonical-form predicate. This is the bound the property itself names.",
          "dense reference + canonical predicate in mc/src/dense.rs are trusted; integer data so comparisons are exact; larger random shapes only as a labelled sampling supplement",
